@@ -36,7 +36,7 @@ func seg(id uint64) string { return snapshots.VerifPathSegment(id) }
 func snapPath(id uint64) string { return "checkpoints/job-" + seg(id) + ".snapshot" }
 
 func Run(k *report.Check) {
-	k.Rule = "crash enumeration: a real snapshots.Store publishes 2-3 consecutive checkpoints; after every storage operation (write / remove) the file set is snapshotted and a new Store started on a copy must load the highest checkpoint id whose snapshot file had been completely written. (0) every set of one to three snapshot files over a 53-id universe (what repeated crashes between writing the new file and removing the old one, plus abandoned checkpoint ids, can leave behind); (a) sequentially, starting from every id in 0..70 and around 2^6, 2^12, 2^16, 2^32 (both an in-memory location with lexicographic listing and the real LocalDirectory for a subset); (b) under the cooperative scheduler with the publication goroutines of consecutive checkpoints overlapping (checkpoint N+1 is created and acknowledged as soon as N is complete), every schedule within the delay bound: additionally Remove never targets the newest published checkpoint, a retained notification never names an id lower than one already announced or published, CurrentCheckpoint never goes backwards. non-trivial = distinct (start id, crash point) pairs with at least two snapshot files present, and distinct schedules in which two publications overlapped"
+	k.Rule = "crash enumeration: a real snapshots.Store publishes 2-3 consecutive checkpoints; after every storage operation (write / remove) the file set is snapshotted and a new Store started on a copy must load the highest checkpoint id whose snapshot file had been completely written. (0) every set of one to three snapshot files over a 53-id universe (what repeated crashes between writing the new file and removing the old one, plus abandoned checkpoint ids, can leave behind); (a) sequentially, starting from every id in 0..70 and around 2^6, 2^12, 2^16, 2^32 (both an in-memory location with lexicographic listing and the real LocalDirectory for a subset); (b) under the cooperative scheduler with the publication goroutines of consecutive checkpoints overlapping (checkpoint N+1 is created and acknowledged as soon as N is complete), every schedule within the delay bound: additionally Remove never targets the newest published checkpoint, a retained notification never names an id lower than one already announced or published, CurrentCheckpoint never goes backwards; a further part makes the write of one snapshot file fail (enumerated which): nothing is removed or announced on behalf of a checkpoint whose file was not written, and the newest written checkpoint stays current and in storage. non-trivial = distinct (start id, crash point) pairs with at least two snapshot files present, and distinct schedules in which two publications overlapped"
 	k.Assumptions = []string{"a storage operation is atomic (no torn snapshot file)", "in-memory location lists lexicographically like S3 and sorted directory walks; a real directory is used for a subset of ids"}
 	k.Budget(120, 1200)
 	var starts []uint64
@@ -48,12 +48,13 @@ func Run(k *report.Check) {
 			starts = append(starts, b-3+d)
 		}
 	}
-	k.Parts(5)
+	k.Parts(6)
 	k.Explore("crash-after-each-storage-op/memory", mc.Config{}, seqParams{starts: starts, n: k.Pick(3, 4)}, seqBody)
 	k.Explore("crash-after-each-storage-op/local-directory", mc.Config{Workers: 4}, seqParams{starts: []uint64{0, 1, 2, 3, 61, 62, 63, 64, 4094, 1<<32 - 2}, n: 3, real: true}, seqBody)
 	k.Explore("restart/any-three-snapshot-files", mc.Config{}, nil, subsetBody)
 	bound := k.Pick(3, 5)
 	k.ExploreSched(fmt.Sprintf("overlapping-publication/with-savepoint,delays<=%d", bound), mc.Config{Bound: bound, Deadline: k.Within(0.3)}, overlapParams{n: 2, savepoint: true}, overlapBody)
+	k.ExploreSched(fmt.Sprintf("overlapping-publication/write-fails,delays<=%d", bound-1), mc.Config{Bound: bound - 1, Deadline: k.Within(0.3)}, overlapParams{n: 3, failWrite: true}, overlapBody)
 	k.ExploreSched(fmt.Sprintf("overlapping-publication/delays<=%d", bound), mc.Config{Bound: bound}, overlapParams{n: 3}, overlapBody)
 }
 
@@ -275,6 +276,7 @@ func mustSnap(id uint64) []byte {
 type overlapParams struct {
 	n         int
 	savepoint bool // one of the checkpoints is started by CreateSavepoint
+	failWrite bool // the write of one snapshot file (enumerated: the k-th in time) fails
 }
 
 func overlapBody(c *mc.Ctx) {
@@ -284,8 +286,25 @@ func overlapBody(c *mc.Ctx) {
 	if p.savepoint {
 		spAt = c.Choose(p.n)
 	}
-	c.Op("[first new checkpoint id %d, %d checkpoints created back to back, savepoint: %d]", start+1, p.n, spAt)
+	failAt := -1
+	if p.failWrite {
+		failAt = c.Choose(p.n)
+	}
+	c.Op("[first new checkpoint id %d, %d checkpoints created back to back, savepoint: %d, failing snapshot write: %d]", start+1, p.n, spAt, failAt)
 	loc := jobh.NewMemLoc()
+	snapWrites := 0
+	failed := map[string]bool{}
+	loc.FailWrite = func(path string) error {
+		if !strings.HasPrefix(path, "checkpoints/") || !strings.HasSuffix(path, ".snapshot") {
+			return nil
+		}
+		snapWrites++
+		if snapWrites-1 == failAt {
+			failed[path] = true
+			return fmt.Errorf("injected: storage refuses the write of %s", path)
+		}
+		return nil
+	}
 	loc.Files["o1/checkpoints"] = []byte(`{"checkpoints":[{"id":1,"wals":[],"levels":[]}]}`)
 	if start > 0 {
 		loc.Files[snapPath(start)] = mustSnap(start)
@@ -299,7 +318,7 @@ func overlapBody(c *mc.Ctx) {
 	events := make(chan string, 16)
 	retained := make(chan []uint64, 16)
 	store := snapshots.NewStore(&snapshots.NewStoreParams{FileStore: loc, SavepointsPath: "savepoints", CheckpointsPath: "checkpoints",
-		CheckpointEvents: events, RetainedCheckpointsUpdated: retained})
+		CheckpointEvents: events, RetainedCheckpointsUpdated: retained, ErrChan: make(chan error, 16)})
 	store.RegisterSourceSplitter(&splitter{})
 	if err := store.LoadCheckpoint(); err != nil {
 		c.Failf("LoadCheckpoint: %v", err)
@@ -356,20 +375,37 @@ func overlapBody(c *mc.Ctx) {
 			c.FailSig("current-goes-backwards", "CurrentCheckpoint went from %d back to %d", curSeen[i-1], curSeen[i])
 		}
 	}
-	last := ids[len(ids)-1]
-	if len(curSeen) == 0 || curSeen[len(curSeen)-1] != last {
-		c.FailSig("current-not-newest", "after checkpoints %v were published CurrentCheckpoint is %v", ids, curSeen)
+	// the newest checkpoint whose snapshot file was actually written (a failed write publishes nothing)
+	last := start
+	for _, id := range ids {
+		if !failed[snapPath(id)] {
+			last = max(last, id)
+		}
 	}
-	if _, err := loc.Read(snapPath(last)); err != nil {
-		c.FailSig("newest-checkpoint-removed", "the snapshot of the newest checkpoint %d does not exist at the end (storage operations: %v)", last, ops)
+	if last > 0 {
+		if len(curSeen) == 0 || curSeen[len(curSeen)-1] != last {
+			c.FailSig("current-not-newest", "after checkpoints %v were created (snapshot writes that failed: %v) CurrentCheckpoint is %v, the newest written checkpoint is %d", ids, failed, curSeen, last)
+		}
+		if _, err := loc.Read(snapPath(last)); err != nil {
+			c.FailSig("newest-checkpoint-removed", "the snapshot of the newest written checkpoint %d does not exist at the end (storage operations: %v)", last, ops)
+		}
 	}
 	for i := 1; i < len(notified); i++ {
 		if notified[i] < notified[i-1] {
 			c.FailSig("retention-names-older", "operators are told to retain %d after having been told %d", notified[i], notified[i-1])
 		}
 	}
+	for _, n := range notified {
+		if failed[snapPath(n)] {
+			c.FailSig("retention-names-unwritten", "operators are told to retain only checkpoint %d, whose snapshot file could not be written (storage operations: %v)", n, ops)
+		}
+	}
 	if len(notified) > 0 && notified[len(notified)-1] != last {
-		c.FailSig("retention-names-older", "the last retained notification names %d, the newest checkpoint is %d", notified[len(notified)-1], last)
+		c.FailSig("retention-names-older", "the last retained notification names %d, the newest written checkpoint is %d", notified[len(notified)-1], last)
+	}
+	if len(failed) > 0 {
+		c.Note("executions_with_a_failed_snapshot_write")
+		c.Nontrivial(fmt.Sprint(start, ops))
 	}
 	if overlapped {
 		c.Note("executions_with_overlapping_publications")
